@@ -119,30 +119,23 @@ void splitUnit(const string &combinedUnit, string &prefix, string &unit, string 
     boost::regex prefix_and_unit_and_power(PREFIXES + UNITS + POWER);
     boost::regex prefix_and_unit(PREFIXES + UNITS);
     boost::regex unit_and_power(UNITS + POWER);
-    boost::regex unit_only(UNITS);
-    boost::regex prefix_only(PREFIXES);
 
-    if (boost::regex_match(combinedUnit, prefix_and_unit_and_power)) {
-        boost::match_results<std::string::const_iterator> m;
-        boost::regex_search(combinedUnit, m, prefix_only);
-        prefix = m[0];
-        string suffix = m.suffix();
-        boost::regex_search(suffix, m, unit_only);
-        unit = m[0];
-        power = m.suffix();
+    // use the sub-matches of the successful full match; searching the string
+    // again for the first alternative splits "mol^2" into "m" and "l^2"
+    boost::match_results<std::string::const_iterator> m;
+    if (boost::regex_match(combinedUnit, m, prefix_and_unit_and_power)) {
+        prefix = m[1];
+        unit = m[2];
+        power = m[3];
         power = power.substr(1);
-    } else if (boost::regex_match(combinedUnit, unit_and_power)) {
+    } else if (boost::regex_match(combinedUnit, m, unit_and_power)) {
         prefix = "";
-        boost::match_results<std::string::const_iterator> m;
-        boost::regex_search(combinedUnit, m, unit_only);
-        unit = m[0];
-        power = m.suffix();
+        unit = m[1];
+        power = m[2];
         power = power.substr(1);
-    } else if (boost::regex_match(combinedUnit, prefix_and_unit)) {
-        boost::match_results<std::string::const_iterator> m;
-        boost::regex_search(combinedUnit, m, prefix_only);
-        prefix = m[0];
-        unit = m.suffix();
+    } else if (boost::regex_match(combinedUnit, m, prefix_and_unit)) {
+        prefix = m[1];
+        unit = m[2];
         power = "";
     } else {
         unit = combinedUnit;
